@@ -7,18 +7,26 @@ from harness.runner import BCheck
 
 LEVEL = "other"
 LEVEL_TEXT = ("Deductive (C++ via clang AST, 64-bit bit-vectors): Genotype::get_position / set_position / set_ploidy / get_ploidy / is_none / get_code / operator== / operator!= "
-              "against the nibble view (set_position changes nibble pos only), with the lemma that a word is determined by its 16 fields.  Bounded stand-in: the Python-visible Genotype on ALL sorted allele vectors up to ploidy 6 x 6 alleles and on seeded ones up to the "
+              "against the nibble view (set_position changes nibble pos only), with the lemma that a word is determined by its 16 fields.  "
+              "Deductive (Cython via Cython's parser): whatshap/align.pyx:edit_distance, both modes, for strings of any length: unbanded result == LEV(s, t), the Levenshtein "
+              "distance defined by the Wagner-Fischer recurrence; banded (maxdiff = e >= 0) result == LEV if LEV <= e and > e otherwise -- through loop invariants for "
+              "the prefix/suffix stripping, the one-column DP and the band, every char*/buffer read in bounds, with the lemma groups 'stripping keeps the distance' "
+              "(LIP, SUFFIX, PREFIX, DIAG) and 'band' (UPPER, COLUMN/CROSSING) discharged as induction steps (contracts/align_pyx.py).  Bounded stand-in: the Python-visible Genotype on ALL sorted allele vectors up to ploidy 6 x 6 alleles and on seeded ones up to the "
               "limits (ploidy 14, allele 15): index = rank in canonical VCF order (math.comb formula), gap-free ranges, index -> genotype round trip through __setstate__, "
               "==, <, hash, deepcopy; edit_distance against a reference Levenshtein DP on all string pairs over {A,C,G} up to length 5 x every band -1..7, bytes, and random "
               "longer pairs.")
-LEVEL_NOTE = ("Proved: the nibble operations only. binomial_coefficient is checked exhaustively on the compiled function for every argument the genotype code can pass "
+LEVEL_NOTE = ("Proved: the nibble operations and edit_distance == Levenshtein recurrence (ASCII/bytes inputs, C int as mathematical integers under the stated size bound, "
+              "induction principle of the lemma groups meta-level). binomial_coefficient is checked exhaustively on the compiled function for every argument the genotype code can pass "
               "(n <= 29; at n = 30, k = 15 the intermediate product overflows int, outside the supported ploidy/allele limits). get_index / convert_index_to_alleles / "
-              "edit_distance are bounded.")
-TECHNIQUE = "contract-based deductive verification of C++ leaves (clang AST -> bit-vector VCs, z3) + exhaustive/bounded runtime contracts on Genotype and edit_distance"
-D_MODULES = ["contracts.genotype_cpp"]
+              "are bounded (edit_distance additionally by the exhaustive comparison below).")
+TECHNIQUE = "contract-based deductive verification of C++ leaves (clang AST -> bit-vector VCs, z3) and of the Cython edit_distance (Cython parser -> VCs with loop invariants and induction lemmas, z3/cvc5) + exhaustive/bounded runtime contracts on Genotype and edit_distance"
+D_MODULES = ["contracts.genotype_cpp", "contracts.align_pyx"]
 EXPLANATION = LEVEL_TEXT
 TRUSTED_BASE = ["z3", "clang JSON AST", "reference Levenshtein DP and math.comb"]
-ASSUMPTIONS = ["get_index/convert_index_to_alleles/edit_distance are not under deductive contract"]
+ASSUMPTIONS = ["get_index/convert_index_to_alleles are not under deductive contract",
+               "edit_distance: 'Levenshtein distance' is taken to be the Wagner-Fischer recurrence (the minimum over edit scripts is not formalised)",
+               "edit_distance: C int arithmetic treated as mathematical under len(s) + len(t) + maxdiff + 1 < 2**31; s.encode() taken as identity (bytes / ASCII str)",
+               "edit_distance_affine_gap and kmer_align (float DP) are not under contract"]
 
 
 def canonical_index(alleles):
@@ -29,7 +37,7 @@ def canonical_index(alleles):
 class GenotypeIndex(BCheck):
     name = "C19.genotype-index"
     contract = ("Genotype(alleles): as_vector() == alleles sorted descending-or-ascending as a multiset, get_ploidy, get_index() == canonical VCF rank, indices of (ploidy p, a alleles) are "
-                "exactly 0..C(p+a-1, p)-1, __setstate__((index, ploidy)) restores the same multiset, == / != agree with multiset equality, < agrees with the index order (same ploidy), "
+                "exactly 0..C(p+a-1, p)-1, __setstate__((index, ploidy)) restores the same multiset -- also into an object that held another genotype and had been queried --, == / != agree with multiset equality, < agrees with the index order (same ploidy), "
                 "hash and deepcopy agree")
     rule = ("exhaustive: all sorted allele vectors for ploidy 1..6 over alleles 0..5, checked pairwise for == and < within a ploidy; seeded: ploidy up to 14 and alleles up to 15 "
             "(the supported limits), always including vectors that contain allele 15; non-trivial = multi-allelic or ploidy > 2")
@@ -79,6 +87,15 @@ class GenotypeIndex(BCheck):
                 return dict(expected="__setstate__(%r) restores %r" % (state, v), observed=list(h.as_vector()), clause="round-trip")
             if not (h == g) or (h != g) or hash(h) != hash(g):
                 return dict(expected="restored genotype equal to the original", observed="%s vs %s" % (h, g), clause="equality")
+            # the same restore into an object with a history: it held another genotype whose index, hash and state had already been asked for
+            if objs:
+                prev_v = objs[-1][0]
+                u = Genotype(list(prev_v))
+                u.get_index(), hash(u), u.__getstate__()
+                u.__setstate__(state)
+                if sorted(u.as_vector()) != list(v) or u.get_index() != idx or hash(u) != hash(g) or u.__getstate__() != state or not (u == g):
+                    return dict(expected="__setstate__(%r) into an object that held %r gives %r in every respect (vector, index %d, hash, state, ==)" % (state, prev_v, v, idx),
+                                observed="vector %r index %r state %r equal %r" % (list(u.as_vector()), u.get_index(), u.__getstate__(), u == g), clause="restore-history")
             c = copy.deepcopy(g)
             if not (c == g) or sorted(c.as_vector()) != list(v):
                 return dict(expected="deepcopy equal", observed=str(c), clause="deepcopy")
@@ -112,7 +129,8 @@ class EditDistance(BCheck):
     name = "C19.edit-distance"
     contract = ("edit_distance(s, t, -1) == Levenshtein distance; edit_distance(s, t, k) == the exact distance if it is <= k and some value > k otherwise; identical for str and bytes")
     rule = ("exhaustive: all pairs of strings over {A,C,G} of length 0..5 (quick) / 0..6 (thorough) x bands -1..7 (asked in ascending, descending and unbanded-last order in turn: results must not depend on earlier calls); seeded: 3000 random pairs up to length 120 over ACGT with few "
-            "edits, bands {-1,0,1,2,5,10,30}; non-trivial = distance > 0")
+            "edits, bands {-1,0,1,2,5,10,30}; 64 (thorough 640) pairs with strings of 260-600 characters, unrelated or a few edits apart with differing ends (bands -1, 3, 12, 300); "
+            "non-trivial = distance > 0")
     exhaustive_in = ("quick", "thorough")
     chunk = 1
     budget_s = {"quick": 120, "thorough": 1200}
@@ -124,6 +142,8 @@ class EditDistance(BCheck):
             yield dict(kind="exhaustive", block=strings[i:i + 8], maxlen=L)
         for i in range(30 if tier == "quick" else 300):
             yield dict(kind="random", seed=rng.getrandbits(32))
+        for i in range(16 if tier == "quick" else 160):
+            yield dict(kind="long", seed=rng.getrandbits(32))
 
     def nontrivial(self, inp):
         return True
@@ -135,6 +155,29 @@ class EditDistance(BCheck):
             strings = ["".join(p) for n in range(L + 1) for p in itertools.product("ACG", repeat=n)]
             pairs = ((s, t) for s in inp["block"] for t in strings)
             bands = list(range(-1, 8))
+        elif inp["kind"] == "long":
+            # strings that stay longer than 255 characters after the common prefix and suffix are trimmed, distances below and above 255 (cells of the
+            # DP column hold values up to the string length)
+            r = random.Random(inp["seed"])
+            pl = []
+            for _ in range(4):
+                s = "".join(r.choice("ACGT") for _ in range(r.randint(260, 600)))
+                if r.random() < 0.5:
+                    t = "".join(r.choice("ACGT") for _ in range(r.randint(0, 400)))
+                else:
+                    t = list(s)
+                    t[0] = "A" if t[0] != "A" else "C"
+                    t[-1] = "A" if t[-1] != "A" else "C"
+                    for _ in range(r.randint(0, 8)):
+                        pos = r.randint(0, len(t) - 1)
+                        if r.random() < 0.5:
+                            t.insert(pos, r.choice("ACGT"))
+                        else:
+                            del t[pos]
+                    t = "".join(t)
+                pl.append((s, t) if r.random() < 0.5 else (t, s))
+            pairs = iter(pl)
+            bands = [-1, 3, 12, 300]
         else:
             r = random.Random(inp["seed"])
             pl = []
